@@ -22,4 +22,19 @@ PROPS = {
         ],
         "trusted_base": ["modelled: verify_tau, verify_total_difficulty, EpochDifficultyTrend::* (send_last_state_proof.rs 353-660, 951-1076)"],
     },
+    "C15": {
+        "op": "c15",
+        "run_module": "RunC15",
+        "n": {"quick": 250, "thorough": 4000},
+        "rule": "cases = direct calls of multiply (ratio strata 0, ~1, 1/x, 1-1/x, random) + estimate_samples_count over a grid of "
+                "(last_n, gap) around gap = last_n, last_n+1 and up to 2^63 + sample_blocks on random (start,last) numbers/difficulties "
+                "(1-bit .. 255-bit ranges, numbers near 2^64) with each returned difficulty inverted to its u32 draw + "
+                "build_prove_request_content on a real LightClientProtocol/Storage/Peers with and without a prove state and stored last-N headers; "
+                "distinct = distinct model input expression; all non-trivial",
+        "assumptions": [
+            "f64 ln/powf/ceil are oracle values: recomputed by the harness with its own copy of the formulas and passed to the model",
+            "thread_rng draws are not observable: each returned difficulty is inverted to a u32 numerator, the model must reproduce the set from them",
+        ],
+        "trusted_base": ["modelled: sampling.rs (multiply, estimate_samples_count, random_sample, sampling, sample_blocks), LightClientProtocol::build_prove_request_content"],
+    },
 }
